@@ -171,7 +171,9 @@ func annotationText(anns []bufx.Annotation) []byte {
 	return b.Bytes()
 }
 
-func scenarios() []Scenario { return append(apiScenarios(), cliScenarios()...) }
+func scenarios() []Scenario {
+	return append(append(apiScenarios(), lintWithPluginsScenario()), cliScenarios()...)
+}
 
 func apiScenarios() []Scenario {
 	return []Scenario{
